@@ -58,9 +58,10 @@ def theorems_of(module):
     return names
 
 
-def audit(modules):
-    """returns dict(ok, build_log, forbidden=[...], theorems={name: [axioms]}, bad=[names])"""
-    res = dict(ok=True, forbidden=[], theorems={}, bad=[], build_ok=True, log='')
+def audit(modules, recheck=False):
+    """returns dict(ok, build_log, forbidden=[...], theorems={name: [axioms]}, bad=[names]);
+    recheck: also run leanchecker (independent re-check of the compiled .olean) on every Props module"""
+    res = dict(ok=True, forbidden=[], theorems={}, bad=[], build_ok=True, log='', rechecked=[], recheck_failed=[])
     try:
         build.build_lean(full=True)
     except build.BuildError as e:
@@ -106,6 +107,18 @@ def audit(modules):
                 res['theorems'][n] = ['<not-found>']
         os.makedirs(build.WORK, exist_ok=True)
         json.dump(res['theorems'], open(cache, 'w'))
+    if recheck:
+        for m in modules:
+            if not os.path.exists(os.path.join(LEAN, 'Yaep', 'Props', m + '.lean')): continue
+            mark = os.path.join(build.WORK, 'leanchecker-%s-%s.ok' % (h.hexdigest()[:16], m))
+            if not os.path.exists(mark):
+                p = subprocess.run(['lake', 'env', 'leanchecker', 'Yaep.Props.' + m], cwd=LEAN, stdout=subprocess.PIPE, stderr=subprocess.STDOUT, text=True)
+                if p.returncode != 0:
+                    res['recheck_failed'].append('%s: %s' % (m, p.stdout[-500:])); continue
+                open(mark, 'w').write('ok\n')
+            res['rechecked'].append('Yaep.Props.' + m)
+        if res['recheck_failed']:
+            res['ok'] = False
     for n, ax in res['theorems'].items():
         if not set(ax) <= ALLOWED_AXIOMS:
             res['bad'].append(n)
